@@ -515,3 +515,17 @@ func RunDefersSites(fn *ssa.Function) []Site {
 	}
 	return out
 }
+
+// RetVal returns the i-th result of a return instruction, looking through the cell a deferred
+// function forces results into (`*t0 = v; rundefers; t = *t0; return t`).
+func RetVal(r ssa.Instruction, i int) ssa.Value {
+	ret, ok := r.(*ssa.Return)
+	if !ok || i >= len(ret.Results) {
+		return nil
+	}
+	v := ret.Results[i]
+	if srcs := resolveLocal(v); len(srcs) == 1 {
+		return srcs[0]
+	}
+	return v
+}
